@@ -395,6 +395,8 @@ class BaseInput:
         if transformers:
             all_columns = self._dataframe
             if need_categorical:
+                # Work on a copy: the conversion below must not change the dtypes of the stored dataframe.
+                all_columns = all_columns.copy()
                 all_columns[need_categorical] = all_columns[need_categorical].astype('category')
 
             all_columns = all_columns.transform(transformers)
